@@ -65,7 +65,8 @@ def build(case):
     for pos, kind in sorted(case.get("noise", []), reverse=True):
         ln = {"t": "blank", "text": ""} if kind == "b" else {"t": "comment", "text": "# note"}
         a["lines"].insert(min(pos, len(a["lines"])), ln)
-    return spec
+    from vlib import strategies as S_
+    return S_.apply_scaffold(spec, case.get("scaffold"))
 
 
 def oracle(case):
@@ -155,6 +156,8 @@ def big_cases(draw):
         if case["dlm"] is None:
             case["version_section"] = draw(st.sampled_from([None, None, None, "no-wrap-item", "absent"]))
         case["names"] = draw(st.sampled_from([None, None, None, "numeric"]))
+    from vlib import strategies as S_
+    case["scaffold"] = draw(S_.scaffold())
     nlines = r if not wrapped else r * (c // case["wrap"] + 2)
     case["noise"] = draw(st.lists(st.tuples(st.integers(0, nlines), st.sampled_from("bc")), max_size=3))
     return case
